@@ -12,7 +12,7 @@ def kbMethods : List Method := [
   { name := "new", acqs := [], earlyRelease := false, composite := false },
   { name := "name", acqs := [], earlyRelease := false, composite := false },
   { name := "version", acqs := [{ lock := 2, mode := .read, toEnd := false }], earlyRelease := false, composite := false },
-  { name := "add_rule", acqs := [{ lock := 1, mode := .read, toEnd := false }, { lock := 0, mode := .write, toEnd := true }, { lock := 1, mode := .write, toEnd := true }, { lock := 2, mode := .write, toEnd := true }], earlyRelease := false, composite := false },
+  { name := "add_rule", acqs := [{ lock := 0, mode := .write, toEnd := true }, { lock := 1, mode := .write, toEnd := true }, { lock := 2, mode := .write, toEnd := true }], earlyRelease := false, composite := false },
   { name := "add_rules_from_grl", acqs := [], earlyRelease := false, composite := true },
   { name := "remove_rule", acqs := [{ lock := 0, mode := .write, toEnd := true }, { lock := 1, mode := .write, toEnd := true }, { lock := 2, mode := .write, toEnd := true }], earlyRelease := false, composite := false },
   { name := "get_rule", acqs := [{ lock := 0, mode := .read, toEnd := true }, { lock := 1, mode := .read, toEnd := true }], earlyRelease := false, composite := false },
